@@ -16,7 +16,7 @@ func c03Gen(c *core.Ctx, i int) (*lang.G, []*lang.N) {
 	for try := 0; ; try++ {
 		g := &lang.G{R: core.NewRng(c.Seed, "C03", i, try), C: lang.Cfg{
 			Depth: 4 + i%4, Pool: []string{"a", "b", "c"}, HigherOrder: true, Variadic: i%5 == 0, TrOneIn: 3,
-			Canary: i%2 == 0, Try: i%2 == 0, MaxStmts: 4, RetCloOneIn: 2,
+			Canary: i%2 == 0, Try: i%2 == 0, MaxStmts: 4, RetCloOneIn: 2, Recursion: i%3 == 0, Alias: true,
 		}}
 		prog := g.Program()
 		max := thorN(c, 140, 220)
